@@ -209,6 +209,10 @@ func parseServiceConfig(js string, maxAttempts int) *serviceconfig.ParseResult {
 	sc.lbConfig = cfg
 
 	if rsc.MethodConfig == nil {
+		// retryThrottling is validated also when there is no methodConfig.
+		if err := validateRetryThrottling(sc.retryThrottling); err != nil {
+			return &serviceconfig.ParseResult{Err: err}
+		}
 		return &serviceconfig.ParseResult{Config: &sc}
 	}
 
@@ -266,6 +270,21 @@ func parseServiceConfig(js string, maxAttempts int) *serviceconfig.ParseResult {
 		}
 	}
 	return &serviceconfig.ParseResult{Config: &sc}
+}
+
+// validateRetryThrottling applies the gRFC A6 range checks to a
+// retryThrottling policy; nil is valid.
+func validateRetryThrottling(rt *retryThrottlingPolicy) error {
+	if rt == nil {
+		return nil
+	}
+	if mt := rt.MaxTokens; mt <= 0 || mt > 1000 {
+		return fmt.Errorf("invalid retry throttling config: maxTokens (%v) out of range (0, 1000]", mt)
+	}
+	if tr := rt.TokenRatio; tr <= 0 {
+		return fmt.Errorf("invalid retry throttling config: tokenRatio (%v) may not be negative", tr)
+	}
+	return nil
 }
 
 func isValidRetryPolicy(jrp *jsonRetryPolicy) bool {
